@@ -156,6 +156,9 @@ func c02Units(tier string) []Unit {
 				decos: []*uFunc{dA}, invokes: []*uFunc{iA, iB, iC}}, d, explore.Budget{Provides: 3, Decorates: 1, Invokes: inv, Rejected: 0})
 		}
 	}
+	// functions registered with callbacks are singletons like any other
+	add("with-callbacks", h.Config{}, nil, prefixChild, alpha{scopes: []int{0, 1}, ctors: []*uFunc{pA.With("pAcb", u.WithCallback), fG1.With("fG1cb", u.WithCallback)},
+		decos: []*uFunc{dA.With("dAcb", u.WithCallback), dG.With("dGcb", u.WithCallback)}, invokes: []*uFunc{iA, iG}}, 6, explore.Budget{Provides: 2, Decorates: 1, Invokes: 3, Rejected: 0})
 	// a member provided to a group after its decorator ran: the decorator has
 	// run, and stays the one run
 	add("late-feeder-of-decorated-group", h.Config{}, nil, prefixChild, alpha{scopes: []int{0, 1}, ctors: []*uFunc{fG1, fG1b}, export: true,
@@ -290,6 +293,11 @@ func c04Units(tier string) []Unit {
 		// below optional edges (§3.6-3: definite where dig's behaviour is)
 		add("decorated-unprovided"+tag, cfg, nil, prefixChild, alpha{scopes: scopes2, ctors: []*uFunc{pA, pB, pCob},
 			decos: []*uFunc{dA, dA0}, invokes: []*uFunc{iA, iAo, iB, iBo, iCo}}, d, explore.Budget{Provides: 2, Decorates: 2, Invokes: 2, Rejected: 0})
+		// a key whose only Provide was rejected for a cycle (in this scope or an
+		// ancestor) is as missing as one never provided: below an optional edge
+		// that still means zero
+		add("optional-after-rejected-provide"+tag, cfg, nil, prefixChild, alpha{scopes: scopes2, ctors: []*uFunc{pB, rAB, rCA},
+			invokes: []*uFunc{iCo, iC, iAo}}, 4, explore.Budget{Provides: 3, Invokes: 1, Rejected: 1})
 		// parameter objects with `ignore-unexported:"true"` whose unexported field
 		// comes before the embed / before the exported fields
 		add("ignore-unexported-layouts"+tag, cfg, nil, prefixChild, alpha{scopes: scopes2, ctors: []*uFunc{pA, pBux4, pBux5},
@@ -348,6 +356,17 @@ func c08Units(tier string) []Unit {
 			invokes: []*uFunc{iA, iB}, scopeOps: par}, d, b)
 		add("shadowing"+tag, cfg, nil, nil, alpha{scopes: []int{0, 1, 2}, ctors: []*uFunc{pA, pA2, pB},
 			decos: []*uFunc{dA}, invokes: []*uFunc{iA, iB}, scopeOps: []int{0, 1}}, d, b)
+		// sibling scopes that share a name are still two scopes: both see what
+		// ancestors register later
+		if !def {
+			sameName := []Op{{Kind: h.OpScope, Scope: 0, RawDesc: "same"}, {Kind: h.OpScope, Scope: 0, RawDesc: "same"}, {Kind: h.OpScope, Scope: 1, RawDesc: "same"}}
+			a := alpha{scopes: []int{0, 1, 2}, ctors: []*uFunc{pA, pB}, export: true, invokes: []*uFunc{iA, iB}}
+			units0 := get()
+			_ = units0
+			add("same-named-siblings"+tag, cfg, nil, nil, a, 6, explore.Budget{Scopes: 3, Provides: 2, Invokes: 2, Rejected: 0})
+			us := get()
+			us[len(us)-1].Sc.Alphabet = append(sameName, us[len(us)-1].Sc.Alphabet...)
+		}
 		// optional consumers (invoked functions and constructors) below the
 		// provider, at every level of a chain, with Export
 		add("optional-consumers"+tag, cfg, nil, prefixChain, alpha{scopes: []int{0, 1, 2}, ctors: []*uFunc{pA, pBo}, export: true,
